@@ -303,6 +303,13 @@ class Value(ArrayCBORSerializable):
         else:
             return self.coin
 
+    @classmethod
+    def from_primitive(cls: Type[Value], value: Primitive) -> Value:
+        # a value without native assets is serialized as a bare integer
+        if isinstance(value, int):
+            return cls(value)
+        return super(Value, cls).from_primitive(value)
+
 
 @dataclass(repr=False)
 class _Script(ArrayCBORSerializable):
